@@ -214,6 +214,14 @@ def check_result(ctx, case, stratum="result"):
     obsd = outcome(lambda: mk().register_bitstrings())
     if expd != obsd:
         ctx.disc(None, "register_bitstrings-default", "defaults", expd, obsd, stratum=stratum, case=case)
+    # ONE result object asked several times, with changing options: every answer as from a fresh object
+    R = mk()
+    ctx.count("monitor:result-object-reused")
+    for what, a, b, want in (("bitstrings", sn, sl, exp), ("counts", sn, sl, expc), ("bitstrings", False, False, expd),
+                             ("counts", sn, sl, expc), ("bitstrings", sn, sl, exp)):
+        got = outcome(lambda: getattr(R, "register_" + what)(strict_names=a, strict_lengths=b))
+        if got != want:
+            ctx.disc(None, "result-object-reused", [what, a, b], want, got, stratum=stratum, case=case)
 
 
 def check_collated(ctx, case, stratum="collate"):
